@@ -94,6 +94,18 @@ def units(rng, tier):
             srt = rng.random() < 0.4
             seq.append([sorted(sv) if srt else sv, 1 if srt else 0, rng.choice(["list", "tuple", "array"])])
         us.append(U("objective_history", {"o": o, "ok": ok, "seq": seq, "sums": seq[0][0]}, "one-object-many-vectors", cmp=None))
+    # the same, with ONE mutable vector (list or numpy array) updated in place between the evaluations, as a search that keeps running sums does
+    for _ in range(300 if tier == "quick" else 3000):
+        o = rng.choice([0, 1, 2, 3, 3, 4, 4, 4])
+        ok = rng.randint(1, 6)
+        n = rng.randint(2, 6)
+        kind = rng.choice(["list", "array"])
+        cur = [rng.randint(0, 30) for _ in range(n)]
+        seq = []
+        for _j in range(rng.randint(2, 6)):
+            seq.append([list(cur), 0, kind])
+            cur[rng.randrange(n)] += rng.randint(1, 12)
+        us.append(U("objective_history", {"o": o, "ok": ok, "seq": seq, "sums": seq[0][0], "inplace": True}, "one-object-one-vector-updated-in-place", cmp=None))
     return us
 
 
